@@ -24,6 +24,7 @@ import (
 	"path/filepath"
 	"strings"
 
+	"golang.org/x/tools/go/ast/astutil"
 	"golang.org/x/tools/go/ssa"
 )
 
@@ -78,6 +79,7 @@ type LoopSpec struct {
 }
 
 type ContractFile struct {
+	Fields    map[string]map[string]bool
 	Path      string
 	PkgName   string
 	Contracts []*Contract
@@ -256,6 +258,21 @@ func parseContractFile(path string) (*ContractFile, error) {
 					cur.Modifies = append(cur.Modifies, cl)
 				}
 			}
+		case "fields":
+			// fields <Type> <field>...: the fields of a struct type the contracts know
+			// about.  Any other field is "unmodelled": never frame-checked (no property
+			// forbids, say, a cycle counter), always havocked by a contract application,
+			// and a free unknown of every pre-state (so reading it can never help).
+			f := strings.Fields(rest)
+			if len(f) >= 1 {
+				if cf.Fields == nil {
+					cf.Fields = map[string]map[string]bool{}
+				}
+				cf.Fields[f[0]] = map[string]bool{}
+				for _, n := range f[1:] {
+					cf.Fields[f[0]][n] = true
+				}
+			}
 		case "inline":
 			cur.Inline = true // verified, but callers see the body (constructors returning fresh objects)
 		case "layer":
@@ -290,79 +307,50 @@ func splitTop(s string) []string {
 }
 
 // rewriteOld turns old(e) into e with every state-carrying identifier renamed
-// to its old_ twin.
+// to its old_ twin (also inside function literals used with vsForall*).
 func rewriteOld(expr string, names map[string]bool) (string, error) {
 	fset := token.NewFileSet()
 	e, err := parser.ParseExprFrom(fset, "clause", expr, 0)
 	if err != nil {
 		return "", err
 	}
-	var rename func(n ast.Node)
-	rename = func(n ast.Node) {
-		ast.Inspect(n, func(m ast.Node) bool {
-			switch v := m.(type) {
+	rename := func(n ast.Node) {
+		astutil.Apply(n, func(c *astutil.Cursor) bool {
+			switch v := c.Node().(type) {
 			case *ast.SelectorExpr:
-				rename(v.X)
-				return false
+				// only the root of a selector chain is a variable
+				if id, ok := v.X.(*ast.Ident); ok {
+					if names[id.Name] {
+						id.Name = "old_" + id.Name
+					}
+					return false
+				}
+				return true
 			case *ast.KeyValueExpr:
-				rename(v.Value)
-				return false
+				return true
 			case *ast.Ident:
 				if names[v.Name] {
+					if _, isField := c.Parent().(*ast.SelectorExpr); isField && c.Name() == "Sel" {
+						return true
+					}
 					v.Name = "old_" + v.Name
 				}
 			}
 			return true
-		})
+		}, nil)
 	}
-	var walk func(n ast.Node) ast.Node
-	// replace old(...) calls in place using a parent-aware rewrite
-	var rw func(e ast.Expr) ast.Expr
-	rw = func(e ast.Expr) ast.Expr {
-		switch v := e.(type) {
-		case *ast.CallExpr:
-			if id, ok := v.Fun.(*ast.Ident); ok && id.Name == "old" && len(v.Args) == 1 {
-				rename(v.Args[0])
-				return &ast.ParenExpr{X: v.Args[0]}
+	wrap := &ast.ParenExpr{X: e}
+	astutil.Apply(wrap, func(c *astutil.Cursor) bool {
+		if call, ok := c.Node().(*ast.CallExpr); ok {
+			if id, ok := call.Fun.(*ast.Ident); ok && id.Name == "old" && len(call.Args) == 1 {
+				rename(call.Args[0])
+				c.Replace(&ast.ParenExpr{X: call.Args[0]})
+				return false
 			}
-			v.Fun = rw(v.Fun)
-			for i := range v.Args {
-				v.Args[i] = rw(v.Args[i])
-			}
-		case *ast.BinaryExpr:
-			v.X, v.Y = rw(v.X), rw(v.Y)
-		case *ast.UnaryExpr:
-			v.X = rw(v.X)
-		case *ast.ParenExpr:
-			v.X = rw(v.X)
-		case *ast.SelectorExpr:
-			v.X = rw(v.X)
-		case *ast.IndexExpr:
-			v.X, v.Index = rw(v.X), rw(v.Index)
-		case *ast.SliceExpr:
-			v.X = rw(v.X)
-			if v.Low != nil {
-				v.Low = rw(v.Low)
-			}
-			if v.High != nil {
-				v.High = rw(v.High)
-			}
-		case *ast.StarExpr:
-			v.X = rw(v.X)
-		case *ast.TypeAssertExpr:
-			v.X = rw(v.X)
-		case *ast.CompositeLit:
-			for i := range v.Elts {
-				v.Elts[i] = rw(v.Elts[i])
-			}
-		case *ast.KeyValueExpr:
-			v.Value = rw(v.Value)
 		}
-		return e
-	}
-	_ = walk
-	e = rw(e)
-	return exprString(fset, e), nil
+		return true
+	}, nil)
+	return exprString(fset, wrap.X), nil
 }
 
 func (c *Contract) predParams(withResults bool, loop *LoopSpec) string {
